@@ -185,13 +185,15 @@ static int q_sep, q_lines, q_ind, q_trail, q_before, q_rel, q_cfg;
 static int q_shape;   /* 0: the quote opens on the key's line; 1: the key's line has no value, the quote opens on the first continuation line (the
                        * value still STARTS with a quote: one item); 2: a quoted text that is closed on the key's line, followed by plain continuation
                        * lines (the value does not start with a quote once the pair is stripped: one item per line) */
-static void gen_q(void) { q_shape = mc_choose(3); q_cfg = mc_choose(3); q_sep = mc_choose(3); q_lines = 1 + mc_choose(3);   /* 1 line: a value with ONE quote sign (27") */ q_ind = mc_choose(3); q_trail = mc_choose(6); q_before = mc_choose(4); q_rel = mc_choose(2); if (q_shape == 2 && q_lines == 1) q_lines = 2; }
+static void gen_q(void) { q_shape = mc_choose(3); q_cfg = mc_choose(3); q_sep = mc_choose(3); q_lines = 1 + mc_choose(3);   /* 1 line: a value with ONE quote sign (27") */ q_ind = mc_choose(3); q_trail = mc_choose(7); q_before = mc_choose(6); q_rel = mc_choose(2); if (q_shape == 2 && q_lines == 1) q_lines = 2; }
 static void exec_q(void)
 {
   static const char *QD[3] = { "=", ":=", "=:" }   /* non-blank delimiter sets: only they have continuation lines */, *SEP[3] = { "=", " = ", "=\t" }, *IND[3] = { "  ", "\t", "    " };
-  static const char *BEFORE[4] = { "", "# block\n", "n=1\n", "[S]\n" };
-  const char *TRAIL[6] = { "", "   ", "\t", "   # closing", " #c", "  \t  # closing" };
-  const char *TCOM[6] = { NULL, NULL, NULL, " closing", "c", " closing" };
+  static const char *BEFORE[6] = { "", "# block\n", "n=1\n", "[S]\n", "# block  \n", "#\ttab\t\n# two \n" };   /* 4, 5: comment texts that END in blanks / a tab - the text is reported as it stands */
+  static const char *BEFORE_TEXT[6] = { NULL, " block", NULL, NULL, " block  ", "\ttab\t\n two " };
+  static const int BEFORE_LINES[6] = { 0, 1, 1, 1, 1, 2 };
+  const char *TRAIL[7] = { "", "   ", "\t", "   # closing", " #c", "  \t  # closing", " # closing \t " };
+  const char *TCOM[7] = { NULL, NULL, NULL, " closing", "c", " closing", " closing \t " };
   sbuf f = {0}, item = {0}, sig = {0}, e1 = {0};
   const char *want2[3] = { "alpha beta", "line 2", "line 3" };
   if (q_shape == 2) { sb_puts(&item, "\"alpha beta\""); for (int l = 1; l < q_lines; l++) sb_printf(&item, "\n%sline %d", IND[q_ind], l + 1); }
@@ -221,7 +223,7 @@ static void exec_q(void)
     if (rc != ECONF_SUCCESS || !ev) mc_fail(sig.s, "econf_getExtValue(k) failed: %d; %s", (int)rc, sig.s);
     else {
       int nv = 0; while (ev->values && ev->values[nv]) nv++;
-      int lines_before = q_before ? 1 : 0;
+      int lines_before = BEFORE_LINES[q_before];
       if (q_shape == 2) {
         if (nv != q_lines) mc_fail(sig.s, "a value of %d lines whose first line is a complete quoted text is reported as %d items; %s", q_lines, nv, sig.s);
         else for (int l = 0; l < q_lines; l++) if (strcmp(ev->values[l], want2[l])) { sb_reset(&e1); sb_put_escs(&e1, ev->values[l]); mc_fail(sig.s, "values[%d] = \"%s\", expected \"%s\"; %s", l, e1.s, want2[l], sig.s); break; }
@@ -230,7 +232,7 @@ static void exec_q(void)
       else if (strcmp(ev->values[0], item.s)) { sb_put_escs(&e1, ev->values[0]); mc_fail(sig.s, "values[0] = \"%s\": not the quoted text from the opening to the closing quote without outer blanks; %s", e1.s, sig.s); }
       if (!ev->file || strcmp(ev->file, abspath)) mc_fail(sig.s, "file = \"%s\", expected \"%s\"; %s", ev->file ? ev->file : "<NULL>", abspath, sig.s);
       if (ev->line_number != (uint64_t)(lines_before + entry_lines)) mc_fail(sig.s, "line_number = %llu, the entry ends on line %d; %s", (unsigned long long)ev->line_number, lines_before + entry_lines, sig.s);
-      if (q_before == 1 && !streq0(ev->comment_before_key, " block")) mc_fail(sig.s, "comment_before_key = \"%s\", expected \" block\"; %s", ev->comment_before_key ? ev->comment_before_key : "", sig.s);
+      if (BEFORE_TEXT[q_before] && !streq0(ev->comment_before_key, BEFORE_TEXT[q_before])) { sbuf x = {0}, y = {0}; sb_put_escs(&x, ev->comment_before_key ? ev->comment_before_key : ""); sb_put_escs(&y, BEFORE_TEXT[q_before]); mc_fail(sig.s, "comment_before_key = \"%s\", the comment lines in front of the key say \"%s\"; %s", x.s, y.s, sig.s); sb_free(&x); sb_free(&y); }
       { sbuf a = {0}; join_nonempty(ev->comment_after_value, &a);
         if (strcmp(a.s, TCOM[q_trail] ? TCOM[q_trail] : "")) mc_fail(sig.s, "comment_after_value (non-empty parts) = \"%s\", the trailing comment text is \"%s\"; %s", a.s, TCOM[q_trail] ? TCOM[q_trail] : "", sig.s);
         sb_free(&a); }
@@ -242,7 +244,7 @@ static void exec_q(void)
     econf_freeFile(kf);
   }
   mc_st->compared++; mc_st->nontrivial++;
-  mc_outcome((uint64_t)((((((q_cfg * 3 + q_sep) * 4 + q_lines) * 3 + q_ind) * 6 + q_trail) * 4 + q_before) * 3 + q_shape));
+  mc_outcome((uint64_t)((((((q_cfg * 3 + q_sep) * 4 + q_lines) * 3 + q_ind) * 7 + q_trail) * 6 + q_before) * 3 + q_shape));
   if (mc_want_sample()) mc_sample("%s", sig.s);
   sb_free(&f); sb_free(&item); sb_free(&sig); sb_free(&e1);
 }
